@@ -148,6 +148,35 @@ def pair_cases(an: str, bn: str) -> list[tuple[str, str]]:
         out.append((f"point:{tag}", "" if all(near(x, y) for x, y in zip(position(bn, got_b), p))
             else f"converted point {short(got_b)} is at {short([sp.N(c, 8) for c in position(bn, got_b)])}, "
             f"original at {short([sp.N(c, 8) for c in p])}"))
+        # vectors in which base vectors occur inside products (cross product, dot-product
+        # coefficient, norm): the geometric vector is still the same after conversion
+        from symplyphysics.core.experimental.vectors import VectorCross, VectorDot, VectorNorm
+        from . import c14
+        va0 = A.base_vectors(P)
+        shapes = {
+            "e1+cross(e3,e1)": 2 * va0[0] + 3 * VectorCross(va0[2], va0[0]),
+            "dot(e1,2e1+e3)*e2": VectorDot(va0[0], 2 * va0[0] + va0[2]) * va0[1],
+            "cross(e1,e2)-e3/2": VectorCross(va0[0], va0[1]) - va0[2] / 2,
+            "norm(e1+e2)*e3": VectorNorm(va0[0] + va0[1]) * va0[2],
+        }
+        nbv = B.base_vectors(Pb)
+        comp_a = {e: fa[j] for j, e in enumerate(va0)}
+        comp_b = {e: fb[j] for j, e in enumerate(nbv)}
+        for sname, vexpr in shapes.items():
+            try:
+                want_c = c14.lib_eval(vexpr, comp_a)
+                conv = convert_vector(vexpr, P, B)
+                got_c = c14.lib_eval(conv, {**comp_b, **comp_a})
+                leftovers = [e for e in va0 if an != bn and sp.sympify(conv).has(e)]
+                ok = isinstance(got_c, tuple) and all(near(x, y) for x, y in zip(got_c, want_c)) \
+                    and not leftovers
+                msg = "" if ok else (f"{sname} at {qa} converted to {short(conv, 120)}: Cartesian "
+                    f"components {short([sp.N(c, 8) for c in got_c]) if isinstance(got_c, tuple) else got_c}"
+                    f" vs {short([sp.N(c, 8) for c in want_c])}" + (f"; base vectors of the old "
+                    f"system left: {leftovers}" if leftovers else ""))
+            except Exception as ex:
+                msg = f"{sname}: {type(ex).__name__}: {short(ex)}"
+            out.append((f"vector-nested:{tag}:{sname}", msg))
         # convert_vector keeps the Cartesian components
         coeffs = (sp.Rational(3, 7), sp.Rational(-11, 5), sp.Rational(13, 3))
         for cs_ in (coeffs, (1, 0, 0), (0, 1, 0), (0, 0, 1)):
